@@ -168,6 +168,9 @@ def run(rep, tier, rng, replay=None):
         "roxmltree parses the crate's own XML (the read-back goes through E57Reader::new)"]
     if not ok:
         return
+    if replay and replay.get("kind") == "wapi-calls":
+        from props import c10
+        return c10.run(rep, tier, rng, replay)
     if replay:
         progs = [[("B", bytes.fromhex(t[2:])) if t.startswith("B:") else
                   ("P", [tuple(x.split("=", 1)) for x in t.split(":")[1].split(",")],
@@ -190,6 +193,28 @@ def run(rep, tier, rng, replay=None):
                 if len(it[2]) > 1000:
                     caps += 1
         rep.distinct(gen.fnv_hex(" ".join(item_tok(x) for x in items).encode()))
+    # API-level programs in which a call is REJECTED in between (theorem C01_api_roundtrip speaks of the accepted calls):
+    # the rejected-finalize families of the writer-API slice, judged by its independent read-back oracle
+    # (points read back = accepted points, bit for bit).  Skipped in a replay of a file-level program.
+    n_api = 0
+    if not replay:
+        try:
+            from props import c10
+            from vlib import wapi
+            api_cases = [(l, c) for l, c in c10.gen_order_cases(core.Rng(rng.next()), tier) if l.startswith("order:rejected-")]
+            api_outs = wapi.run_all([c for _, c in api_cases], {})
+            rep.count(len(api_cases))
+            n_api = len(api_cases)
+            for (label, calls), o in zip(api_cases, api_outs):
+                bad = wapi.direct_check(calls, o)
+                if bad:
+                    n_dir += 1
+                    rep.violation("c01-api-roundtrip", "%s [%s]" % (bad[0][1], label),
+                                  dict(kind="wapi-calls", calls=[wapi.call_tok(c) for c in calls], label=label, replay_with="./tools/check C10 --replay <this file>"))
+                    break
+        except ImportError as e:                      # the generator is another slice's; C01 runs without it
+            rep.cov["api_level_programs_unavailable"] = str(e)[:200]
+    rep.cov["api_level_programs_with_rejected_calls"] = n_api
     rep.cov.update(programs=len(progs), section_start_residues_mod_1020=len(residues), widths_covered=len(widths),
                    programs_at_packet_capacity=caps, direct_failures=n_dir, correspondence_failures=n_corr,
                    traces_validated_against_impl=len(progs))
@@ -198,4 +223,5 @@ def run(rep, tier, rng, replay=None):
                        "{single,double,integer,scaled integer} x the width grid 0..64 (min=max, full range, negative minima); point counts 0,1,2,.. and k*capacity+{-1,0,1}. "
                        "Each program: implementation (debug+release) writes, finalizes, reads back; direct oracle: read-back equals input bit for bit; "
                        "correspondence: extracted model produces the same file byte for byte, the same results, device operation count and write log, and the same read-back. "
-                       "distinct = distinct program texts")
+                       "Plus the API-level call sequences in which a point-cloud or image finalize is REJECTED, repaired and repeated with more points in between "
+                       "(independent read-back oracle: points read back = accepted points). distinct = distinct program texts")
